@@ -30,7 +30,9 @@ def r19_1(ctx):
     a.rule = "R19.1a"
     b = C04.r04_5(ctx)
     b.rule = "R19.1b"
-    return [a, b]
+    c = C02.r02_3b(ctx)
+    c.rule = "R19.1c"
+    return [a, b, c]
 
 
 class Sh(StandIn):
